@@ -147,7 +147,11 @@ impl Story {
                     self.get_state().set_in_expression_evaluation(false);
                 }
                 CommandType::Duplicate => {
-                    let obj = self.get_state().peek_evaluation_stack().unwrap().clone();
+                    let Some(obj) = self.get_state().peek_evaluation_stack().cloned() else {
+                        return Err(StoryError::InvalidStoryState(
+                            "Trying to duplicate the top of an empty evaluation stack".to_owned(),
+                        ));
+                    };
                     self.get_state_mut().push_evaluation_stack(obj);
                 }
                 CommandType::PopEvaluatedValue => {
